@@ -34,7 +34,7 @@ type PCase struct {
 	B      []string `json:"b"`     // raw values of the occurrences of -b
 	Allow  []string `json:"allow"` // raw values of the occurrences of -allow
 	Format string   `json:"format"`
-	Out    string   `json:"out"` // stdout | file | template
+	Out    string   `json:"out"`           // stdout | file | template
 	Pre    string   `json:"pre,omitempty"` // what the output file holds before the run: "" (absent) | longer | shorter
 	Pkg    string   `json:"pkg,omitempty"`
 	Debug  bool     `json:"debug,omitempty"`
